@@ -442,7 +442,21 @@ REDUCED = {
     'at': False,
     'tmpforms': False,
 }
-POOLS = {'full': FULL, 'red': REDUCED}
+# pool for the products (operator from the field into a space) * (functional on that space):
+# both operands are size-1 expressions, so that B ranges over the Operator* expression classes
+# and F over the Functional* classes derived from them (Python then tries F.__rmul__(B) first)
+PRODUCT = {
+    'leaves': ['MulR3', 'PowR', 'ScR', 'IdFn', 'L1_3', 'QF3', 'IP3'],
+    'scalars': ['2'],
+    'vecs': ['v3'],
+    'plain': [],
+    'pows': [],
+    'ssums': ('adds',),
+    'binary': ['add', 'comp'],
+    'at': False,
+    'tmpforms': False,
+}
+POOLS = {'full': FULL, 'red': REDUCED, 'prod': PRODUCT}
 
 
 def roots_over(c, pool):
@@ -474,10 +488,8 @@ def roots_over(c, pool):
         if a != '0' and in_field(a, Fd) and in_field(a, Fr):
             out.append(['div', c, a])
         if in_field(a, Fr):
-            out.append(['adds', c, a])
-            out.append(['sadd', a, c])
-            out.append(['subs', c, a])
-            out.append(['ssub', a, c])
+            for op in pool.get('ssums', ('adds', 'sadd', 'subs', 'ssub')):
+                out.append([op, c, a] if OPS[op][0] == 'E' else [op, a, c])
     for v in pool['vecs']:
         vs = VECS[v][0]
         if (ran in FIELDS and FIELD_OF[vs] == ran) or vs == ran:
@@ -546,6 +558,28 @@ def pairs_with(c, partners, pool):
                     out.append([op, c, p])
             elif tp[1] == t[0]:
                 out.append([op, c, p])
+    return out
+
+
+def product_sides(pool=PRODUCT):
+    """(B list, F list): size <= 1 expressions defined on the field / with values in it."""
+    cand = level(pool, 0) + level(pool, 1)
+    B = [c for c in cand if typeof(c)[0] in FIELDS]
+    F = [c for c in cand if typeof(c)[1] in FIELDS]
+    return B, F
+
+
+def products_with(b, partners):
+    """b * F, b @ F (F's values feed b) and F * b for every partner F where typed."""
+    tb = typeof(b)
+    out = []
+    for f in partners:
+        tf = typeof(f)
+        if tf[1] == tb[0]:
+            out.append(['comp', b, f])
+            out.append(['matmul', b, f])
+        if tb[1] == tf[0]:
+            out.append(['comp', f, b])
     return out
 
 
